@@ -608,6 +608,92 @@ class SimThread:
         return self._task is not None and self._task.state != 'done'
 
 
+class SimExecutor:
+    """concurrent.futures.ThreadPoolExecutor replacement: every submitted call becomes a simulator task of the calling process,
+    interleaved with the others at seam events by the seeded scheduler (the unchanged library has no pools; code under test
+    that starts to use one meets controlled concurrency here instead of real threads nobody decides)."""
+
+    def __init__(self, max_workers=None, *args, **kwargs):
+        self._pending = []
+
+    def __enter__(self):
+        return self
+
+    def __exit__(self, *exc):
+        self.shutdown()
+        return False
+
+    class _Future:
+        def __init__(self):
+            self.done_ = False
+            self.value = None
+            self.error = None
+
+        def result(self, timeout=None):
+            _drive()
+            if self.error is not None:
+                raise self.error
+            return self.value
+
+        def done(self):
+            return self.done_
+
+    def submit(self, fn, *args, **kwargs):
+        s = ACTIVE
+        fut = SimExecutor._Future()
+        if s is None:
+            try:
+                fut.value = fn(*args, **kwargs)
+            except BaseException as exc:  # noqa
+                fut.error = exc
+            fut.done_ = True
+            return fut
+
+        def body():
+            try:
+                fut.value = fn(*args, **kwargs)
+            except (Killed, Aborted):
+                raise
+            except BaseException as exc:  # noqa
+                fut.error = exc
+            fut.done_ = True
+            return True
+        s.thread_seq += 1
+        parent = s.current
+        proc = parent.proc if parent is not None else s.harness_proc
+        name = '%s.pool%d' % (parent.name if parent is not None else 'h', s.thread_seq)
+        s.probe('pool_task_spawned')
+        fut.task = s.spawn(name, proc, body)
+        s.spawned_threads.append(fut.task)
+        self._pending.append(fut)
+        return fut
+
+    def map(self, fn, *iterables, timeout=None, chunksize=1):
+        futs = [self.submit(fn, *args) for args in zip(*iterables)]
+
+        def results():
+            for f in futs:
+                yield f.result()
+        return results()
+
+    def shutdown(self, wait=True, **kwargs):
+        if wait:
+            _drive()
+
+
+def _drive():
+    """Let the spawned pool tasks run: from the harness thread by running the scheduler, from inside a task by waiting."""
+    s = ACTIVE
+    if s is None:
+        return
+    if s.current is None:
+        s.run()
+    else:
+        for t in list(s.spawned_threads):
+            if t.state != 'done' and t is not s.current:
+                s.join(t)
+
+
 class SimThreading:
     Thread = SimThread
 
@@ -740,6 +826,8 @@ def install():
     recipes.random = SIM_RANDOM
     for mod in (core, fanout, persistent, recipes):
         mod.hash = sim_hash
+        if hasattr(mod, 'ThreadPoolExecutor'):
+            mod.ThreadPoolExecutor = SimExecutor      # only code under test that imports it: the unchanged modules do not
         if hasattr(mod, 'random') and mod is not recipes:
             mod.random = SIM_RANDOM      # only code under test that imports it: the unchanged modules do not
     _installed = True
